@@ -4,7 +4,7 @@ import (
 	. "verif/mc/refsem"
 )
 
-// Seed programs (17): model ASTs that together use every statement and expression
+// Seed programs (18): model ASTs that together use every statement and expression
 // form. Each prints in BEGIN before anything else. Used by C11 (syntax
 // splices), C12 (error positions) and C13 (layout neighbourhoods).
 
@@ -154,6 +154,15 @@ func seedPrograms() []*progCase {
 	),
 		&Rule{Body: Blk(&If{Cond: Bin("==", V("$"), num("4")), Then: Blk(&Next{}, Pr(S("dead")))}, Pr(S("el"), V("$")), &If{Cond: Bin("==", V("$"), num("5")), Then: Blk(&Exit{}, Pr(S("dead")))}, Pr(S("after")))},
 		&Rule{Kind: "END", Body: Blk(Pr(S("never")))},
+	)
+	// 18 match expressions with multi-statement block bodies inside parentheses, brackets and argument lists
+	add([]inFile{{"in.json", `[{"kind":"a"},{"kind":"b"},{"kind":"c"}]`}}, nil, begin(Ex(Asg("=", V("skipped"), num("0"))), Ex(Asg("=", V("hits"), num("0"))), Ex(Asg("=", V("seen"), S("none")))),
+		&Rule{Body: Blk(
+			Ex(Asg("+=", V("n"), CallE(V("num"), &MatchExpr{Subj: Mem(V("$"), "kind"), Cases: []MatchCase{{Pats: []Expr{S("a")}, Body: S("1")}, {Pats: []Expr{V("k")}, Block: Blk(Pr(S("other"), V("k")), Ex(&Postfix{"++", V("skipped")}))}}}))),
+			Ex(Asg("=", V("r"), Arr_(&MatchExpr{Subj: Mem(V("$"), "kind"), Cases: []MatchCase{{Pats: []Expr{S("b")}, Block: Blk(Pr(), Ex(Asg("=", V("hits"), Bin("+", V("hits"), num("1")))))}, {Pats: []Expr{V("_")}, Body: num("0")}}}, num("7")))),
+			Pr(S("r"), V("r"), &Paren{X: &MatchExpr{Subj: num("1"), Cases: []MatchCase{{Pats: []Expr{V("w")}, Block: Blk(Ex(Asg("=", V("seen"), V("w"))), Pr(S("in parens"), V("w")))}}}}),
+		)},
+		&Rule{Kind: "END", Body: Blk(Pr(S("end"), V("n"), V("skipped"), V("hits"), V("seen")))},
 	)
 	return out
 }
